@@ -317,6 +317,26 @@ def run(ctx: Ctx):
         random_tree(ctx, rng, 3)
 
 
+def search(ctx: Ctx):
+    """Deeper failing-input search (called when an obligation or the correspondence is broken
+    and run() found no property failure): more and larger random operands and trees, every
+    real result judged by the independent oracles."""
+    rng = ctx.rng
+    for _ in range(ctx.budget(400, 6000)):
+        fam, A, B = random_pair(rng, 5)
+        for op in ALL_BINARY:
+            check_op(ctx, op, A, B, "search")
+        for op in UNARY:
+            check_op(ctx, op, A, None, "search")
+            check_op(ctx, op, B, None, "search")
+        if ctx.n_prop_fails:
+            return
+    for _ in range(ctx.budget(150, 3000)):
+        random_tree(ctx, rng, 3)
+        if ctx.n_prop_fails:
+            return
+
+
 def replay(ctx: Ctx, path: str) -> int:
     data = json.load(open(path))
     rp = data.get("replay", data)
